@@ -12,21 +12,29 @@ impl<A: Actor> Spawner<A> for SmolSpawner {
     where
         F: Future<Output = crate::DynResult<A>> + Send + 'static,
     {
-        let handle = Arc::new(async_lock::Mutex::new(Some(smol::spawn(future))));
+        // A smol task is cancelled when its handle is dropped. What a join waits on must not have that power:
+        // a join that is given up would take the actor down, and detaching after a join was requested
+        // would lose the actor's final state. So the task runs detached and reports through a channel,
+        // which behaves like the join handles of the other runtimes.
+        let (result_tx, result_rx) = futures::channel::oneshot::channel::<DynResult<A>>();
+        smol::spawn(async move {
+            let _ = result_tx.send(future.await);
+        })
+        .detach();
+        let handle = Arc::new(async_lock::Mutex::new(Some(result_rx)));
         log::trace!("spawning smol task");
-
-        let detach_handle = Arc::clone(&handle);
 
         ActorHandle::new(move || -> JoinFuture<A> {
             log::trace!("joining smol task");
             let handle = Arc::clone(&handle);
             Box::pin(async move {
-                let mut handle: Option<smol::Task<DynResult<A>>> = handle.lock().await.take();
+                let mut handle: Option<futures::channel::oneshot::Receiver<DynResult<A>>> =
+                    handle.lock().await.take();
 
                 if let Some(handle) = handle.take() {
                     // TODO: don't eat the error
 
-                    let actor = handle.await.ok();
+                    let actor = handle.await.ok().and_then(Result::ok);
                     log::trace!("smol task completed");
                     actor
                 } else {
@@ -34,13 +42,6 @@ impl<A: Actor> Spawner<A> for SmolSpawner {
                     None
                 }
             })
-        })
-        .with_detach_fn(move || {
-            log::trace!("detaching smol task");
-            let mut handle = detach_handle.lock_blocking().take();
-            if let Some(handle) = handle.take() {
-                handle.detach();
-            }
         })
     }
 
